@@ -15,7 +15,7 @@ class C05(PropertyCheck):
     pid = "C05"
     source_tables = ["BIN_HEADER", "ARC_LABELS", "ARC_HEADER_PAD", "PACK_CONSTS", "ASet", "AssetBin"]   # tables / constants regenerated from /repo's source (gen/srctables.py)
     release_too = True
-    rule = ("per parser family (bin archive both endiannesses; pack; text archive / arc / aset / asset binary as their modules land): "
+    rule = ("per parser family (bin archive both endiannesses; pack; text archive; arc; aset; asset binary): "
             "random bytes (half of them behind a plausible header), every truncation of valid generated and game files, every header / "
             "table field replaced by boundary values {0,1,size-1,size,size+1,0x7FFFFFFF,0x80000000,0xFFFFFFF0..0xFFFFFFFF}, pairs of "
             "fields whose u32 sums wrap, bit flips; both build profiles; outcome category and parsed value compared with the extracted "
@@ -72,8 +72,8 @@ TB = ("Trusted: Coq 8.16.1 kernel (vm_compute, no native_compute), no axioms (Pr
 MANIFEST = dict(
     text="Theorems about machine-level Gallina models (outcome monad with Panic, both arithmetic modes) of the parsers of the archive family: "
          "for ALL byte strings the parser never panics, the field-sized allocation requests are bounded by the input length, headers / "
-         "entries declaring more than the buffer holds yield Err, and every accepted value re-serializes without panic (see "
-         "Properties/C05.v for the list of parsers covered so far). Models tied to /repo on every run: outcome category and parsed value "
+         "entries declaring more than the buffer holds yield Err, and every accepted value re-serializes without panic (all six families: bin archive both endiannesses, pack, "
+         "text archive both formats, arc, aset, asset binary - 39 theorems in Properties/C05.v). Models tied to /repo on every run: outcome category and parsed value "
          "compared on random bytes and structure-aware mutations/truncations of valid files in debug (checked) and release (wrapping) "
          "builds; a counting allocator measures the largest single request; the runner detects aborts and hangs.",
     note=TB + "Modelled, not verified: Cursor/Read semantics, Vec/HashMap/IndexMap growth (A-std); real allocator behaviour, stack depth "
